@@ -285,10 +285,10 @@ type c13Obs struct {
 	// instant and at the restart. It must stay empty.
 	Frozen   [3]int         `json:"parked_calls_of_dead_processes"` // writes, reads, dependency calls
 	ParkedBy map[string]int `json:"parked_dependency_calls,omitempty"`
-	PostStop []string `json:"effects_after_stop,omitempty"`
-	Blocks   int      `json:"blocks"`
-	Height       int32               `json:"height"`
-	MaxRank      map[string]int      `json:"-"`
+	PostStop []string       `json:"effects_after_stop,omitempty"`
+	Blocks   int            `json:"blocks"`
+	Height   int32          `json:"height"`
+	MaxRank  map[string]int `json:"-"`
 }
 
 func c13SetAdd(m map[string][]string, k, v string) {
@@ -575,7 +575,7 @@ type c13World struct {
 	payKey   *btcec.PublicKey // our payment base point
 	nursery  []c13Kid         // legacy channels: what was handed to the utxo nursery (durable)
 
-	stopPrint []string     // survivors() at the stop instant
+	stopPrint []string        // survivors() at the stop instant
 	frozen    [3]atomic.Int64 // calls of dead processes that were parked, by kind
 	parkMu    sync.Mutex
 	parkedBy  map[string]int // parked dependency calls by dependency
